@@ -190,17 +190,19 @@ def run(c):
             special = rnd.random() < 0.15       # setuid/setgid words only in traces without owner/size changes
             make_file(p, data, rnd.choice([0o644, 0o600, 0o755]), rnd.choice([0, 1000]), rnd.choice([0, 1000]),
                       rnd.randrange(2 ** 31), rnd.randrange(2 ** 31))
-            target, fh = None, None
+            target, fh, hmode = None, None, ""
             if route == "path":
                 target = pair.client
             elif route == "handle":
-                fh = target = pair.client.open(name, rnd.choice(["r", "r+", "r+"]), rnd.choice([-1, 0, 1, 512]))
+                hmode = rnd.choice(["r", "r+", "r+"])
+                fh = target = pair.client.open(name, hmode, rnd.choice([-1, 0, 1, 512]))
             steps = []
             for _ in range(rnd.randint(1, 5)):
                 cur = os.path.getsize(p)
                 while True:
                     a = random_attr(rnd, route, cur, special)
-                    if not (special and (a["has_own"] or a["has_size"])):
+                    # a size change through a handle corresponds to os.truncate(fd): the handle must be open for writing
+                    if not (special and (a["has_own"] or a["has_size"])) and not (route == "handle" and hmode == "r" and a["has_size"]):
                         break
                 steps.append(run_step(route, target, a, p))
                 c.case(key=("tv", route, a["has_perm"], a["has_own"], a["has_time"], a["time_now"], a["has_size"],
